@@ -63,6 +63,27 @@ def _mk_log_fn(logger, module):
     return ns["f"]
 
 
+def emulated_fork(s, sinks):
+    """os.fork() as the at-fork hooks see it: the REAL acquire_locks / release_locks of
+    loguru._locks_machinery run in the calling thread; at the fork point the child's memory is inspected:
+    every registered lock must be owned by the forking thread (after_in_child releases exactly those)
+    and no sink may be in the middle of a write."""
+    import loguru._locks_machinery as lm
+    me = s.me()
+    lm.acquire_locks()
+    s.log_event("forked", "", "")
+    bad = []
+    for name in ("logger_locks", "handler_locks", "queue_locks"):
+        for lk in list(getattr(lm, name, ())):
+            if getattr(lk, "owner", me) != me:
+                bad.append("%s %s is held by %r at the fork point" % (name, lk.name(), lk.owner))
+    for hid, snk in sinks.items():
+        if snk.busy is not None:
+            bad.append("sink of handler %d is in the middle of a write (by %r) at the fork point" % (hid, snk.busy))
+    lm.release_locks()
+    return bad or "ok"
+
+
 class Run:
     def __init__(self, program, chooser, max_events=20000):
         self.program = program
@@ -115,6 +136,8 @@ class Run:
                                 logger.enable(op[1])
                             elif op[0] == "disable":
                                 logger.disable(op[1])
+                            elif op[0] == "fork":
+                                res = emulated_fork(s, sinks)
                         finally:
                             s.log_event("return", "%s/%d" % (tn, j), json.dumps(res))
                             ops_log.append((tn, j, op, inv, len(s.trace) - 1, res))
@@ -147,6 +170,9 @@ def monitors(run):
         return bad
     for tn, e in s.errors:
         bad.append("internal error in %s: %s: %s" % (tn, type(e).__name__, e))
+    for tn, j, op, inv, ret, res in run.ops:
+        if op[0] == "fork" and isinstance(res, list):
+            bad.extend("fork by %s: %s" % (tn, b) for b in res)
     # mutual exclusion of each sink
     for hid, snk in run.sinks.items():
         if snk.overlap:
@@ -330,15 +356,15 @@ def run(ctx):
             r = Run(c["program"], sched.replay_chooser(c["schedule"])).execute()
             judge(r, c["schedule"], c["program"], "corpus")
 
-    nprog = ctx.n(12, 150) * boost
-    per_prog = ctx.n(25, 400)
+    nprog = ctx.n(30, 150) * boost
+    per_prog = ctx.n(35, 400)
     for pi in range(nprog):
         prog = gen_program(rng.fork("p%d" % pi), nthreads=(2 if ctx.quick else None))
         if pi < 2:
             ctx.sample({"program": prog})
         dfs_schedules(prog, bound=ctx.n(2, 3), limit=per_prog,
                       on_run=lambda r, pre, prog=prog: judge(r, pre, prog, "dfs"))
-    nrand = ctx.n(150, 20000) * boost
+    nrand = ctx.n(300, 20000) * boost
     for i in range(nrand):
         r2 = rng.fork("r%d" % i)
         prog = gen_program(r2, maxops=3)
